@@ -7,7 +7,7 @@ import subprocess
 import sys
 import time
 
-VERIF = "/verif"
+VERIF = os.environ.get("VERIF_ROOT") or os.path.dirname(os.path.dirname(os.path.dirname(os.path.abspath(__file__))))
 REPO = os.environ.get("VERIF_REPO", "/repo")
 COQ = os.path.join(VERIF, "coq")
 EXTRACT = os.path.join(VERIF, "extract")
